@@ -63,6 +63,10 @@ def run(rep, kf, tier, seed):
                         "the real generator run natively to render the schematic package (parser + jinja2)"]
                        + ["assumed library contract: " + t for t in libmodels.TRUSTED])
     rep.assumptions.extend(ASSUME)
+    # parser side: what additionalProperties means, and the plumbing that carries property data into the model
+    import contracts.model_plumbing as cmp_
+    engine_b.discharge(rep, kf, [cmp_.additional_properties_contract(), cmp_.process_property_data_contract(),
+                                 cmp_.process_model_contract()], "C02", tier, seed)
     from props.common import engine_b_crosscheck
     try:
         engine_b_crosscheck(rep, tier, convert_value=False, models=["3.1.0", "3.0.3"])
